@@ -231,6 +231,12 @@ func msHook(o *otto.Otto, kind otto.VerifStepKind, node interface{}) {
 	if msOverrun() {
 		panic(harnessAbort{"task step cap"})
 	}
+	if t := curMTask(); t != nil && t.abortAt > 0 {
+		t.progSteps++
+		if t.progSteps >= t.abortAt {
+			panic(harnessAbort{"abort"})
+		}
+	}
 }
 
 // ---------------------------------------------------------------------------
@@ -240,12 +246,14 @@ type MProg struct {
 	Src    string `json:"src"`
 	Route  string `json:"route"`            // text | script | program | reader
 	Shared int    `json:"shared,omitempty"` // index into Scripts for script/program routes
+	Abort  int    `json:"abort,omitempty"`  // >0: the program is killed (panic out of Run) at its Abort-th evaluation step
 }
 
 type MTask struct {
 	Origin   string  `json:"origin"` // fresh | copy | copycopy | livecopy
 	Progs    []MProg `json:"progs"`
 	LiveCopy int     `json:"live_copy,omitempty"` // before program #LiveCopy (1-based) the task takes a new Copy() of the template and continues on it
+	Chan     bool    `json:"chan,omitempty"`      // the runtime has a (silent) Interrupt channel, so the polling paths run
 }
 
 type MultiCase struct {
@@ -273,6 +281,7 @@ type mtask struct {
 	trace  []string
 	nextID int
 	rnd    Rng
+	abortAt, progSteps int
 }
 
 // taskTable maps the scheduler's current index to harness state. It is
@@ -407,12 +416,17 @@ func makeRuntime(c *MultiCase, tk *MTask, id int, tpl *otto.Otto) *otto.Otto {
 		fatalf("unknown origin %q", tk.Origin)
 	}
 	setRandom(vm, c.Seed+uint64(id)*977)
+	if tk.Chan {
+		vm.Interrupt = make(chan func(), 1)
+	}
 	return vm
 }
 
 func runProg(t *mtask, p *MProg, shared []sharedSrc, stepsActive bool) {
 	var v otto.Value
 	var err error
+	t.abortAt, t.progSteps = p.Abort, 0
+	defer func() { t.abortAt = 0 }()
 	func() {
 		defer func() {
 			if x := recover(); x != nil {
@@ -459,6 +473,9 @@ func runTask(c *MultiCase, tk *MTask, t *mtask, tpl *otto.Otto, shared []sharedS
 			// runtimes are mid-program
 			t.vm = tpl.Copy()
 			setRandom(t.vm, c.Seed+uint64(t.id)*977+uint64(i))
+			if tk.Chan {
+				t.vm.Interrupt = make(chan func(), 1)
+			}
 			t.rec("LIVECOPY")
 		}
 		if interleaved {
@@ -737,6 +754,15 @@ func execMulti(c *MultiCase, st *Stats) *Violation {
 		}
 	}
 	st.Fault("ctx_switch")
+	for i := range tasks {
+		for _, l := range tasks[i].trace {
+			if l == "ABORT abort" {
+				st.Fault("program_aborted")
+			} else if l == "LIVECOPY" {
+				st.Fault("copy_live")
+			}
+		}
+	}
 	ev("multi", ms.hash, ms.steps, ms.switches)
 	if ms.overrun {
 		return viol("C20", "task_runaway", "a task exceeded the step cap only when interleaved")
@@ -951,6 +977,12 @@ func (multiEngine) Gen(t *rapid.T, tier string) interface{} {
 			default:
 				// the same source text as a shared script, submitted as text: route independence
 				tk.Progs = append(tk.Progs, MProg{Route: "text", Src: c.Scripts[rapid.IntRange(0, ns-1).Draw(t, "shared")]})
+			}
+		}
+		tk.Chan = rapid.IntRange(0, 3).Draw(t, "chan") == 3
+		for j := range tk.Progs {
+			if rapid.IntRange(0, 5).Draw(t, "abort?") == 5 {
+				tk.Progs[j].Abort = rapid.IntRange(1, 300).Draw(t, "abortstep")
 			}
 		}
 		if tk.Origin != "fresh" && rapid.IntRange(0, 3).Draw(t, "livecopy") == 3 {
